@@ -314,6 +314,18 @@ fn process_tcp_packet(
         ObservableHttpPackage { http_request: None, http_response: None };
 
     let flow_key: FlowKey = (src_ip, dst_ip, src_port, dst_port);
+
+    // A SYN without ACK opens a new connection: whatever an earlier connection between the same
+    // endpoints left behind (parsed flags, buffered segments, sequence origins) must not be
+    // applied to it.
+    let flags = tcp.get_flags();
+    if flags & pnet::packet::tcp::TcpFlags::SYN != 0
+        && flags & pnet::packet::tcp::TcpFlags::ACK == 0
+    {
+        http_flows.remove(&flow_key);
+        http_flows.remove(&(dst_ip, src_ip, dst_port, src_port));
+    }
+
     let (tcp_flow, is_client) = {
         if let Some(flow) = http_flows.get_mut(&flow_key) {
             (Some(flow), true)
